@@ -122,5 +122,6 @@ theorem rtt_run {now : Nat} {classic : Bool} {A : Op → Prop} {l l' : FLink F}
   | nak seq _ _ ih => exact keep ih (.refl _)
   | select x _ _ ih => exact keep ih (.refl _)
   | stamp w ld ccb cct _ _ ih => exact keep ih (.refl _)
+  | syncTimeout T _ _ ih => exact keep ih (.refl _)
 
 end Srtla.SysDir
